@@ -63,19 +63,24 @@ pub mod shims {
     pub struct StdWriter { _o: () }
     pub struct TestWriter { _o: () }
     //@ item src/primary_writer.rs enum PrimaryWriter
+    /// token facts (C04): only a call of the primary writer's / an additional writer's flush / shutdown establishes them
+    pub uninterp spec fn pw_flushed() -> bool;
+    pub uninterp spec fn pw_shut() -> bool;
+    pub uninterp spec fn ow_flushed(wid: int) -> bool;
+    pub uninterp spec fn ow_shut(wid: int) -> bool;
     impl PrimaryWriter {
         #[verifier::external_body]
-        pub fn flush(&self) -> std::io::Result<()> { unimplemented!() }
+        pub fn flush(&self) -> std::io::Result<()> ensures pw_flushed() { unimplemented!() }
         #[verifier::external_body]
-        pub fn shutdown(&self) { unimplemented!() }
+        pub fn shutdown(&self) ensures pw_shut() { unimplemented!() }
         #[verifier::external_body]
         pub fn existing_log_files(&self, selector: &LogfileSelector) -> (r: Result<Vec<PathBuf>, FlexiLoggerError>) ensures r == pw_elf_result(selector) { unimplemented!() }
     }
     /// SHIM for `trait LogWriter`
     pub trait LogWriter: Send + Sync {
         spec fn wid(&self) -> int;
-        fn flush(&self) -> std::io::Result<()>;
-        fn shutdown(&self);
+        fn flush(&self) -> std::io::Result<()> ensures ow_flushed(self.wid());
+        fn shutdown(&self) ensures ow_shut(self.wid());
         fn reopen_output(&self) -> (r: Result<(), FlexiLoggerError>) ensures r == ow_reopen_result(self.wid());
         fn rotate(&self) -> (r: Result<(), FlexiLoggerError>) ensures r == ow_rotate_result(self.wid());
     }
@@ -92,6 +97,16 @@ pub mod logger_handle {
     //@ item src/logger_handle.rs struct WritersHandle
     //@   dropattr #[derive
 
+    impl WritersHandle {
+        pub closed spec fn wmap(&self) -> Map<String, Box<dyn LogWriter>> { (*self.other_writers)@ }
+    // R9: `impl Drop for WritersHandle { fn drop }` emitted as an inherent method
+    //@ fn src/logger_handle.rs impl Drop for WritersHandle / fn drop
+    //@   props C04
+    //@   loop 1 iter it
+    //@   loop 1 inv[WritersHandle::drop.loop.all] forall|w: Box<dyn LogWriter>| old(self).wmap().values().contains(w) ==> #[trigger] it.seq().contains(&w)
+    //@   loop 1 inv[WritersHandle::drop.loop.done] pw_shut() && forall|j: int| 0 <= j < it.index@ ==> ow_shut((#[trigger] it.seq()[j]).wid())
+    //@   ens[WritersHandle::drop.post.all] pw_shut() && forall|w: Box<dyn LogWriter>| #[trigger] old(self).wmap().values().contains(w) ==> ow_shut(w.wid())
+    }
     impl LoggerHandle {
         pub closed spec fn is_multi(&self) -> bool { *self.writers_handle.primary_writer is Multi }
         pub closed spec fn writers(&self) -> Map<String, Box<dyn LogWriter>> { (*self.writers_handle.other_writers)@ }
@@ -128,8 +143,16 @@ pub mod logger_handle {
     //@       && forall|w: Box<dyn LogWriter>| #[trigger] self.writers().values().contains(w) ==> ow_rotate_result(w.wid()) is Ok
     //@ fn src/logger_handle.rs impl LoggerHandle / fn flush
     //@   props C04
+    //@   loop 1 iter it
+    //@   loop 1 inv[LoggerHandle::flush.loop.all] forall|w: Box<dyn LogWriter>| self.writers().values().contains(w) ==> #[trigger] it.seq().contains(&w)
+    //@   loop 1 inv[LoggerHandle::flush.loop.done] pw_flushed() && forall|j: int| 0 <= j < it.index@ ==> ow_flushed((#[trigger] it.seq()[j]).wid())
+    //@   ens[LoggerHandle::flush.post.all] pw_flushed() && forall|w: Box<dyn LogWriter>| #[trigger] self.writers().values().contains(w) ==> ow_flushed(w.wid())
     //@ fn src/logger_handle.rs impl LoggerHandle / fn shutdown
     //@   props C04
+    //@   loop 1 iter it
+    //@   loop 1 inv[LoggerHandle::shutdown.loop.all] forall|w: Box<dyn LogWriter>| self.writers().values().contains(w) ==> #[trigger] it.seq().contains(&w)
+    //@   loop 1 inv[LoggerHandle::shutdown.loop.done] pw_shut() && forall|j: int| 0 <= j < it.index@ ==> ow_shut((#[trigger] it.seq()[j]).wid())
+    //@   ens[LoggerHandle::shutdown.post.all] pw_shut() && forall|w: Box<dyn LogWriter>| #[trigger] self.writers().values().contains(w) ==> ow_shut(w.wid())
     //@ fn src/logger_handle.rs impl LoggerHandle / fn adapt_duplication_to_stderr
     //@   ret r
     //@   props C13
